@@ -1111,6 +1111,7 @@ impl BytecodeVM {
                     yield_result_register: None,
                     func_env: None,
                     current_env: None,
+                    saved_env_stack: Vec::new(),
                     delegated_iterator: None,
                     is_async: false,
                     throw_value: None,
@@ -1148,6 +1149,7 @@ impl BytecodeVM {
                     yield_result_register: None,
                     func_env: None,
                     current_env: None,
+                    saved_env_stack: Vec::new(),
                     delegated_iterator: None,
                     is_async: true, // Async generator
                     throw_value: None,
